@@ -40,6 +40,30 @@ func c07Prop(st *CaseStats, fam int) func(t *rapid.T) {
 			at := rapid.IntRange(0, len(fields)).Draw(t, "dvAt")
 			fields = append(fields[:at:at], append([]string{f}, fields[at:]...)...)
 		}
+		// documents whose field value follows >= 1024 documents without any value in that field
+		// (whole doc-value chunks without entries before them)
+		type gapT struct {
+			f   string
+			doc int
+		}
+		var gaps []gapT
+		for _, f := range dvFields {
+			last := -1
+			for d, ts := range c.Exp.DV[f] {
+				if len(ts) > 0 {
+					if d/1024 > (last+1024)/1024 || (last < 0 && d >= 1024) {
+						gaps = append(gaps, gapT{f, d})
+					}
+					last = d
+				}
+			}
+		}
+		forcedDoc := -1
+		if len(gaps) > 0 && rapid.IntRange(0, 3).Draw(t, "visitGap") > 0 {
+			g := gaps[rapid.IntRange(0, len(gaps)-1).Draw(t, "gap")]
+			fields = append(fields, g.f)
+			forcedDoc = g.doc
+		}
 		r, err := c.Seg.DocumentValueReader(fields)
 		if err != nil {
 			t.Fatalf("%s %s: DocumentValueReader: %v", sc, c.Desc, err)
@@ -71,6 +95,9 @@ func c07Prop(st *CaseStats, fam int) func(t *rapid.T) {
 			case 5:
 				cur = 0
 			default: // same document again
+			}
+			if i == 1 && forcedDoc >= 0 {
+				cur = forcedDoc
 			}
 			if cur < 0 {
 				cur = 0
@@ -111,6 +138,9 @@ func c07Prop(st *CaseStats, fam int) func(t *rapid.T) {
 		}
 		if delivered > 0 {
 			labels = append(labels, "values-delivered")
+		}
+		if forcedDoc >= 0 && nv > 1 {
+			labels = append(labels, "value-after-empty-chunk-visited")
 		}
 		nt := (n > 1024 && chunkChanges >= 2) || (hasDV && hasNonDV && delivered > 0)
 		st.Record(fmt.Sprintf("%s %s fields=%q history=%v", sc, c.Desc, fields, hist), nt, dedup(labels)...)
